@@ -8,4 +8,5 @@ INVARIANT NonMinimalHasShorter
 INVARIANT RangeOK
 INVARIANT ArithAgrees
 INVARIANT CastToBoolDef
+INVARIANT FixedWidthAgrees
 CHECK_DEADLOCK FALSE
